@@ -138,6 +138,11 @@ fn report(c: &C13Case) -> CaseReport {
                         rep.classes.push(c);
                     }
                 }
+                for (k, v) in [("durable_content_rechecked_later", s.durable_checks), ("durable_content_unreadable_later", s.durable_unreadable)] {
+                    if v > 0 && !rep.classes.iter().any(|x| x == k) {
+                        rep.classes.push(k.into());
+                    }
+                }
                 if s.fault_in_drop && !rep.classes.iter().any(|x| x == "fault_in_drop_exempt") {
                     rep.classes.push("fault_in_drop_exempt".into());
                 }
